@@ -322,7 +322,8 @@ def run(ctx, res, pid):
     thorough = ctx.tier == "thorough"
     res.rule = ("scripted environment: the real Consumer over a fake client (any ClientIface result at any time, the real client's cancel outcomes) "
                 "and a step-wise clock (second stage: the real Consumer over the real KafkaClient over harness/sim/cluster.py, delivered stream and broker-side "
-                "requests checked against the simulated partition log and offset store); scenarios generated adaptively from ctx.rng in profiles %s (calm/faithful: a broker-like log with gaps, sizes around the "
+                "requests checked against the simulated partition log and offset store, incl. coordinator errors 14/15/16 on OffsetFetch/OffsetCommit; third stage: "
+                "application behaviour beyond the model - restart from inside the processor, processor Deferreds that outlive their cancellation - Lean monitors on the implementation trace only); scenarios generated adaptively from ctx.rng in profiles %s (calm/faithful: a broker-like log with gaps, sizes around the "
                 "buffer sizes and 1 MiB; commits; storm: stop/shutdown/re-entrant calls everywhere; errors), plus the corpus%s; %s; distinct = by content hash."
                 % ([p for p, _ in PROFILES[pid]], " and bounded-exhaustive enumeration" if thorough else "", RULES[pid]))
     # 1. corpus first
@@ -348,6 +349,12 @@ def run(ctx, res, pid):
     from harness.lib import consumer_fullstack
 
     consumer_fullstack.run_stage(ctx, res, pid, ctx.scale(150, 4000))
+    # 5. beyond the model's environment (restart from inside the processor, processor Deferreds that outlive their
+    #    cancellation): Lean monitors on the implementation's trace only
+    from harness.lib import consumer_ext
+
+    if consumer_ext.MONITORS.get(pid):
+        consumer_ext.run_stage(ctx, res, pid, ctx.scale(3000, 60000))
     res.extra["error_kinds_hit"] = sorted(k for k in res.hist if k.startswith("errkind:"))
     res.extra["log_monitors_evaluated"] = dict(EXTRA_EVALS)
 
@@ -392,6 +399,15 @@ def replay(ctx, data, pid):
         print("lean monitors:", verdicts)
         mine = [p for p in probs if p[0] == pid] + [k for k, v in verdicts.items() if v != ["ok"] and k[:3].upper() == pid]
         if mine:
+            print("VIOLATION property=%s replay=(this file)" % pid)
+            return 1
+        return 0
+    if isinstance(sc, dict) and sc.get("profile") == "beyond-model":
+        from harness.lib import consumer_ext
+
+        print("replay (beyond the model: monitors on the implementation trace only) cfg:", json.dumps(sc["cfg"]))
+        print("script:", json.dumps(sc.get("script", [])[:12]))
+        if consumer_ext.replay(pid, sc):
             print("VIOLATION property=%s replay=(this file)" % pid)
             return 1
         return 0
